@@ -786,7 +786,9 @@ DIGEST_FNS = ["RelionMotl.set_pixel_size", "RelionMotl.set_version", "RelionMotl
               # round 5: the export chain itself and what the constructor / the file reader go through
               "RelionMotl.__init__", "RelionMotl.read_in", "RelionMotl.set_version_specific_names", "RelionMotl.get_version_specific_names",
               "RelionMotl.create_particles_data", "RelionMotl.prepare_optics_data", "RelionMotl.prepare_particles_data", "RelionMotl.create_final_output",
-              "RelionMotl.create_relion_df", "RelionMotl.write_out", "Motl.assign_column"]
+              "RelionMotl.create_relion_df", "RelionMotl.write_out", "Motl.assign_column",
+              # round 7: the factory `Motl.load(path, "relion")` (a keyword slipped into its RelionMotl(...) call changes every import made through it)
+              "Motl.load"]
 # reviewed bodies: 20-hex digest of the whole normalised body (the Lean obligation `bodies_documented`) and a 6-hex digest per statement (only used to say WHICH
 # statement changed; regenerate both with `PYTHONPATH=harness python harness/props/c03.py --doc-bodies` after reviewing a change of cryomotl.py)
 DOC_DIGESTS = {
@@ -817,6 +819,7 @@ DOC_DIGESTS = {
     'RelionMotl.create_relion_df': '66126693ca6c8b3baa27',
     'RelionMotl.write_out': 'bbdd6b2a8ddc0e93ce9b',
     'Motl.assign_column': '869bcbd14a2ecc04d20d',
+    'Motl.load': '0da0dd47b8eb310b03c0',
 }
 DOC_STMTS = {
     'RelionMotl.set_pixel_size': '0bd25b f1a38f 9e33a8 f14db6 e829d2 820d7c c31a2a a015c7 cdd80e 1cfacc d4e2ba 12d1fb ccdb70 eb0994 5a85ce adb1d7 4304eb f3aba6 9db7f3 7ba5a0'.split(),
@@ -846,6 +849,7 @@ DOC_STMTS = {
     'RelionMotl.create_relion_df': '983433 d67600 810c81 6b563f 29027a d61c69 3fa4e0 0d3cd3 09bc0b aa5edd b13baf b900d0 163f6c 799264 22fcb0 e829d2 d6c6af 70aacc a32529 8e083b 8970bd 972042 500c8b bc39f3 ec3a04 8553a7 9843de 632978 072804 f9b8d0 72a241 1becc2 96e118 b72f64 b41618'.split(),
     'RelionMotl.write_out': '1774a8 e1e497 9981db e829d2 e145a5 8c6d6e fd982f'.split(),
     'Motl.assign_column': '86f5e1 1b8a76 dca186'.split(),
+    'Motl.load': 'ae6159 e0e4e5 c8d54c b5519e e829d2 371e00 5c3ebd f3aba6 14db4c 0b0164 eb0994 cec7a6 1b0948 1920d4 47008b'.split(),
 }
 
 
@@ -905,26 +909,27 @@ def translate(src):
     dg = A("whole-body-digests", lambda: [[q, body_digest(src, q)] for q in DIGEST_FNS])
     for q in DIGEST_FNS:   # the normalised bodies go into the evidence; a changed body fails HERE with the statement that moved
         A("body:" + q, lambda q=q: body_checked(src, q))
-    c30 = c30 or DOC["columnsV30"]; c31 = c31 or DOC["columnsV31"]; c4 = c4 or DOC["columnsV4"]
-    nb = nb or DOC_BRANCHES
-    ex = ex or ["ZXZ", "ZYZ", ["phi", "theta", "psi"], [("rlnAngleRot", True, 0), ("rlnAngleTilt", False, 1), ("rlnAnglePsi", True, 2)]]
-    im = im or ["ZYZ", "zxz", ["rlnAngleRot", "rlnAngleTilt", "rlnAnglePsi"], [("phi", True, 2), ("theta", True, 1), ("psi", True, 0)]]
-    sh = sh or [["shift_x", "shift_y", "shift_z"], True, (">=", 31, "/")]
-    co = co or [["rlnCoordinateX", "rlnCoordinateY", "rlnCoordinateZ"], [["x", "y", "z"], ["shift_x", "shift_y", "shift_z"]], "+"]
+    # (`is None`, never `or`: a value that was FOUND but is falsy - an emptied column list, a 0 - must reach the Lean obligations as it is)
+    c30 = DOC["columnsV30"] if c30 is None else c30; c31 = DOC["columnsV31"] if c31 is None else c31; c4 = DOC["columnsV4"] if c4 is None else c4
+    nb = DOC_BRANCHES if nb is None else nb
+    ex = ["ZXZ", "ZYZ", ["phi", "theta", "psi"], [("rlnAngleRot", True, 0), ("rlnAngleTilt", False, 1), ("rlnAnglePsi", True, 2)]] if ex is None else ex
+    im = ["ZYZ", "zxz", ["rlnAngleRot", "rlnAngleTilt", "rlnAnglePsi"], [("phi", True, 2), ("theta", True, 1), ("psi", True, 0)]] if im is None else im
+    sh = [["shift_x", "shift_y", "shift_z"], True, (">=", 31, "/")] if sh is None else sh
+    co = [["rlnCoordinateX", "rlnCoordinateY", "rlnCoordinateZ"], [["x", "y", "z"], ["shift_x", "shift_y", "shift_z"]], "+"] if co is None else co
     oz = True if oz is None else oz
-    hs = hs or [[0, 2], [1, 1]]
-    ip = ip or [[("x", "rlnCoordinateX"), ("y", "rlnCoordinateY"), ("z", "rlnCoordinateZ")], ("class", "rlnClassNumber")]
-    pn = pn or [0, 1, (">=", 40)]
-    rs = rs or DOC_RENUMBER
-    fv = fv or [["data_", 30], ["data_particles+tomo", 40], ["data_particles", 31]]
-    tf = tf or [["<=", 31], [-1, 0], 0]
-    vs = vs or [DOC_SNIFF, 31]
-    pxs = pxs or "self.relion_df['rlnPixelSize'].values"
+    hs = [[0, 2], [1, 1]] if hs is None else hs
+    ip = [[("x", "rlnCoordinateX"), ("y", "rlnCoordinateY"), ("z", "rlnCoordinateZ")], ("class", "rlnClassNumber")] if ip is None else ip
+    pn = [0, 1, (">=", 40)] if pn is None else pn
+    rs = DOC_RENUMBER if rs is None else rs
+    fv = [["data_", 30], ["data_particles+tomo", 40], ["data_particles", 31]] if fv is None else fv
+    tf = [["<=", 31], [-1, 0], 0] if tf is None else tf
+    vs = [DOC_SNIFF, 31] if vs is None else vs
+    pxs = "self.relion_df['rlnPixelSize'].values" if pxs is None else pxs
     vf = 31 if vf is None else vf
-    df = df or DOC_DEFAULTS
-    dg = dg or [[q, DOC_DIGESTS.get(q, "")] for q in DIGEST_FNS]
-    bp = bp or DOC_BY_POSITION
-    vw = vw or DOC_FORWARDED
+    df = DOC_DEFAULTS if df is None else df
+    dg = [[q, DOC_DIGESTS.get(q, "")] for q in DIGEST_FNS] if dg is None else dg
+    bp = DOC_BY_POSITION if bp is None else bp
+    vw = DOC_FORWARDED if vw is None else vw
     branches = "[" + ", ".join(f"({core.lean_str(b[0])}, {b[1]}, {core.lean_str(b[2])}, {core.lean_str(b[3])}, {core.lean_str_list(b[4])}, {core.lean_str(b[5])})" for b in nb) + "]"
     sniff = "[" + ", ".join("([" + ", ".join(core.lean_str_list(cl) for cl in r[0]) + f"], {r[1]})" for r in vs[0]) + "]"
     return f"""-- GENERATED by harness/props/c03.py from {REL}; do not edit
@@ -998,7 +1003,9 @@ RULE = ("two case kinds from one PRNG. 'cc': a cryoCAT particle list (N in 1..30
         "order; version passed or SNIFFED from the columns; coordinates float or whole numbers held as int64 / written without decimal point) imported from a "
         "DataFrame (M) and from the file (F); in a share the same DataFrame object is imported twice (M2, frame compared with a pristine copy) and the same file path is "
         "rewritten with the rows reversed and imported again (F2); import -> drop/reorder rows -> create_relion_df(use_original_entries=True[, keep_all_entries=True]) "
-        "(U; the user's row selection with or without reset_index); relion2stopgap from the file (H). ROW LABELS (round 5): cc lists get non-default labels the way users get "
+        "(U; the user's row selection with or without reset_index); relion2stopgap from the file (H). Half of the imports that need no keyword (D, F, F2, M) go through the "
+        "factory `Motl.load(x, 'relion')` / `Motl.load(x, motl_type='relion')` instead of the constructor. An angle class sits on both sides of the threshold (1e-7 rad) at "
+        "which scipy's as_euler declares gimbal lock; inside it rotations are judged with the conditioned allowance 3 sin(theta) per as_euler call. ROW LABELS (round 5): cc lists get non-default labels the way users get "
         "them - cryoCAT's own remove_feature (scalar / list / array argument), a slice, a re-ordering, pd.concat (duplicated labels) - before create_relion_df / write_out, and the "
         "converter functions get frames carrying such labels; rln DataFrames carry filtered / offset / permuted / duplicated labels. EXPORT VERSION (round 5): given to the "
         "constructor, or only by the `version` keyword of create_relion_df / write_out, or by the keyword AGAINST another constructor version; version 3.0 also with write_optics "
@@ -1035,8 +1042,30 @@ TRUSTED = ["harness STAR reader/writer in props/c03.py (read_star, write_relion_
 #  TOL_MODEL 1e-11 Lean Float.cos/sin vs numpy on the same double: both within 1 ulp of the true value for |angle| <= 720 deg -> products differ by <= ~1e-15; 1e-11.
 #  TOL_POST 1e-8 post-condition of an Euler extractor (scipy's or the driver's own): matrix rebuilt from its answer vs the matrix fed: same estimate as TOL_MEM, kept one
 #                order looser because the driver's extractor normalises with a square root next to gimbal lock (error ~ sqrt(eps) * |sin theta| <= 1.5e-8 * 1e-2 there).
+#  GIMBAL ZONE (round 7, audit 3): the cancellation argument above holds for as_euler's regular branch only. scipy DECLARES gimbal lock when theta is within 1e-7 rad
+#                (5.7296e-6 deg) of 0 or pi: it then puts the whole azimuth into one angle, sets the third to 0 and KEEPS theta, so the returned triple is
+#                Rz(0)Rx(theta)Rz(phi+psi) instead of Rz(psi)Rx(theta)Rz(phi); the two differ by at most 2 sin(theta) per matrix entry (measured exactly 2.00 sin(theta) at
+#                worst by C05 / C10 on > 10^4 triples, and 1e-15 just outside the zone). This is the representation limit of scipy's Euler triples next to the pole
+#                (<= 2e-7, below the 6-decimal STAR precision of an angle: 5e-7 deg = 8.7e-9 rad ... per angle, but three orders above TOL_MEM), not a statement about
+#                cryoCAT. `_gimbal_allow(M)` = 3 sin(theta) + 1e-12 while sin(theta) <= 1.5e-7 (margin for the zone test itself), 0 outside; sin(theta) = |(M13, M23)| of the
+#                matrix handed to as_euler. One allowance per as_euler call on the way: export and import 1x, round trips C/D/E and original entries U 2x (the exported
+#                tilt is again inside the zone). The same allowance is added to the post-condition / model-vs-implementation comparisons (corr).
 TOL_MEM, TOL_FILE, TOL_MODEL, TOL_POST = 1e-9, 1e-6, 1e-11, 1e-8
 POS_TOL_FILE = 1.5e-6
+GIMBAL_ZONE = 1.5e-7
+# spec tolerance of the clauses that involve no trigonometry (round 7, item 3): the statement says "within STAR precision"; a few ulp (relative 1e-12, absolute 1e-12
+# next to 0) separate `-o / px` from `-o * (1 / px)`; bit-for-bit equality is still compared against the Lean model, as `corr`
+PREC = 1e-12
+
+
+def _gimbal_allow(M, calls=1):
+    st = math.hypot(float(M[0][2]), float(M[1][2]))
+    return calls * (3.0 * st + 1e-12) if 1e-14 < st <= GIMBAL_ZONE else 0.0     # (exactly at the pole nothing is dropped: no allowance)
+
+
+def _near(a, want, tol):
+    """|a - want| within `tol`, and never tighter than a few ulp (PREC relative / absolute)"""
+    return abs(a - want) <= max(tol, PREC * max(1.0, abs(want)))
 
 VERS = {30: 3.0, 31: 3.1, 40: 4.0}
 DOC_NAMES = {30: ("rlnMicrographName", "rlnImageName", ["rlnOriginX", "rlnOriginY", "rlnOriginZ"], "data_"),
@@ -1147,10 +1176,26 @@ def _angles(rng, cls):
         return [45.0 * rng.randint(-8, 8), 45.0 * rng.randint(-4, 8), 45.0 * rng.randint(-8, 8)]
     if cls == "neargimbal":
         return [rng.uniform(-180, 180), rng.choice([0.0, 180.0]) + rng.choice([-1, 1]) * 10 ** rng.uniform(-5, -2), rng.uniform(-180, 180)]
+    if cls == "gimbalzone":   # both sides of the threshold at which scipy's as_euler declares gimbal lock: 1e-7 rad = 5.7296e-6 degrees from 0 or 180
+        d = rng.choice(NEAR_POLE) if rng.random() < 0.7 else 10.0 ** rng.uniform(-10, -4)
+        return [rng.uniform(-180, 180), rng.choice([0.0, 180.0, -180.0]) + rng.choice([-1, 1]) * d, rng.uniform(-180, 180)]
     return [round(rng.uniform(-180, 180), 3), round(rng.uniform(-10, 190), 3), round(rng.uniform(-180, 180), 3)]
 
 
-ANGLE_CLASSES = ["uniform", "gimbal", "noncanon", "lattice", "neargimbal", "decimal"]
+NEAR_POLE = [1e-9, 1e-7, 1e-6, 3e-6, 4e-6, 5e-6, 5.7e-6, 5.72957e-6, 5.73e-6, 5.8e-6, 6e-6, 1e-5, 1e-4]   # degrees
+ANGLE_CLASSES = ["uniform", "gimbal", "noncanon", "lattice", "neargimbal", "decimal", "gimbalzone"]
+
+
+# how an import that needs no keyword is made: the constructor, or the factory Motl.load with the type given positionally / by keyword (round 7, item 1)
+LOADERS = ["ctor", "ctor", "load_pos", "load_kw"]
+
+
+def _load(cryomotl, case, src, kw):
+    """RelionMotl(src, **kw); through the factory when the case says so and no keyword is needed (Motl.load has none to pass on)"""
+    how = case.get("loader", "ctor")
+    if kw or how == "ctor":
+        return cryomotl.RelionMotl(src, **kw)
+    return cryomotl.Motl.load(src, "relion") if how == "load_pos" else cryomotl.Motl.load(src, motl_type="relion")
 
 
 def _px(rng):
@@ -1204,7 +1249,7 @@ def _sub_ids(rng, n):
 
 
 def gen_cc(rng, tier, force=None):
-    force = force or {}
+    force = {} if force is None else force
     ver = force.get("ver", rng.choice([30, 31, 40]))
     px = _px(rng)
     n = force.get("n") or _n(rng, tier)
@@ -1292,7 +1337,7 @@ def gen_cc(rng, tier, force=None):
     ctor_ver = rng.choice([v for v in (30, 31, 40) if v != ver]) if ver_by == "kw-other" else None
     return dict(kind="cc", ver=ver, px=f2b(px), tomo_fmt=tf, sub_fmt=sf, optics=optics, parts=parts, ids=ids,
                 angles=("mixed" if cls_mix else acls), grid=exact, xyz_int=xyz_int, all_int=all_int, omit=omit, share_df=force.get("share_df", P(0.35)), sg=P(0.3),
-                idx=idx, idx_arg=idx_arg, ver_by=ver_by, ctor_ver=ctor_ver, wo30=(ver == 30 and P(0.5)))
+                idx=idx, idx_arg=idx_arg, ver_by=ver_by, ctor_ver=ctor_ver, wo30=(ver == 30 and P(0.5)), loader=rng.choice(LOADERS))
 
 
 def rln_columns(case):
@@ -1316,7 +1361,7 @@ def rln_columns(case):
 
 
 def gen_rln(rng, tier, force=None):
-    force = force or {}
+    force = {} if force is None else force
     ver = force.get("ver", rng.choice([30, 31, 40]))
     px = _px(rng)
     n = force.get("n") or _n(rng, tier)
@@ -1405,7 +1450,7 @@ def gen_rln(rng, tier, force=None):
     case = dict(kind="rln", ver=ver, px=f2b(px), pxs=[f2b(v) for v in pxs], pxsrc=pxsrc, optics=optics, rows=rows, tomo_names=tn, sub_names=sn,
                 tomo_ids=tids, sub_ids=subs, halfsets=halfsets, cls=cl, angles=acls, style=rng.randint(0, 5), tomo_col=tomo_col, ver_arg=ver_arg,
                 omit_px=omit_px, coord_int=coord_int, all_int=all_int, reuse=force.get("reuse", rng.random() < 0.35), colorder=None, uoe=None, sg=False,
-                idx=idx, labels=labels, px_arg=px_arg)
+                idx=idx, labels=labels, px_arg=px_arg, loader=rng.choice(LOADERS))
     if force.get("shuffle", rng.random() < 0.4):
         k = len(rln_columns(case))
         perm = list(range(k)); rng.shuffle(perm)
@@ -1486,6 +1531,8 @@ def shrink(case):
             yield dict(case, idx="default", idx_arg=None)
         if case.get("ver_by", "ctor") != "ctor":
             yield dict(case, ver_by="ctor", ctor_ver=None)
+        if case.get("loader", "ctor") != "ctor":
+            yield dict(case, loader="ctor")
         if b2f(case["px"]) != 2.0 and "conv_pixel_size" not in case.get("omit", []):
             yield dict(case, px=f2b(2.0))
         simple = [[f2b(v) for v in (10.0 + i, 20.0, 30.0, 0.5, -0.25, 0.0, 10.0, 20.0, 30.0)] for i in range(n)]
@@ -1500,6 +1547,8 @@ def shrink(case):
                 yield dict(case, **{flag: off})
         if case.get("labels"):
             yield dict(case, idx="default", labels=None)
+        if case.get("loader", "ctor") != "ctor":
+            yield dict(case, loader="ctor")
         if case.get("uoe") and not case["uoe"].get("reset", True):
             yield dict(case, uoe=dict(case["uoe"], reset=True))
         if case.get("ver_arg") == "sniff":
@@ -1810,7 +1859,7 @@ def run_impl(case):
                 _attempt(out, "C", c)
             if "file" in state:
                 need_px = (ver == 40 and not case["optics"])
-                _attempt(out, "D", lambda: _motl_obs(cryomotl.RelionMotl(path, **(dict(pixel_size=px) if need_px else {}))))
+                _attempt(out, "D", lambda: _motl_obs(_load(cryomotl, case, path, (dict(pixel_size=px) if need_px else {}))))
             ek = dict(fm)
             if "relion_version" not in omit:
                 ek["relion_version"] = VERS[ver]
@@ -1856,7 +1905,7 @@ def run_impl(case):
             state = {}
 
             def m_():
-                m = cryomotl.RelionMotl(frame, **mk)
+                m = _load(cryomotl, case, frame, mk)
                 state["m"] = m
                 o = _motl_obs(m); o["mut"] = _frame_diff(pristine, frame); o["sniffed"] = "version" not in mk
                 return o
@@ -1898,7 +1947,7 @@ def run_impl(case):
             fk = {} if (use_col or with_optics or case.get("omit_px")) else dict(pixel_size=px)
             if case.get("px_arg") is not None and (use_col or with_optics):    # argument AND column / optics block: the argument wins
                 fk = dict(pixel_size=b2f(case["px_arg"]))
-            _attempt(out, "F", lambda: _motl_obs(cryomotl.RelionMotl(path, **fk)))
+            _attempt(out, "F", lambda: _motl_obs(_load(cryomotl, case, path, fk)))
             if case.get("sg"):
                 def h_():
                     sg = cryomotl.relion2stopgap(path)
@@ -1907,7 +1956,7 @@ def run_impl(case):
                 _attempt(out, "H", h_)
             if reuse:   # G2: the same path, legitimately rewritten (rows reversed), read again
                 write_relion_star(path, ver, cols, rows[::-1], optics_px=(px if with_optics else None), style=case.get("style", 0) + 1)
-                _attempt(out, "F2", lambda: _motl_obs(cryomotl.RelionMotl(path, **fk)))
+                _attempt(out, "F2", lambda: _motl_obs(_load(cryomotl, case, path, fk)))
     return out
 
 
@@ -2028,12 +2077,25 @@ def _close(a_bits, b, tol):
     return a == b if tol == 0 else abs(a - b) <= tol
 
 
-def _common(tag, o, S):
+def _idv(v):
+    """the NUMBER an identifier cell stands for: a text cell '12' stands for 12 (that it is text is a dtype matter, reported once as `corr numeric-field-is-text`; the
+    statement only asks for the number to survive)"""
+    if isinstance(v, dict) and "text" in v:
+        try:
+            f = float(v["text"])
+            return int(f) if (math.isfinite(f) and f == int(f)) else v
+        except Exception:
+            return v
+    return v
+
+
+def _common(tag, o, C):
     """clauses every observation is judged by: caller-owned inputs untouched (G2), numeric fields numeric (G3)"""
+    # the statement is silent about the caller's objects and about result dtypes: both are disagreements with the documented behaviour (`corr`), never `spec`
     if o.get("mut"):
-        S("caller-input-modified", f"the DataFrame handed to the call was changed in place: {o['mut']}")
+        C("caller-input-modified", f"the DataFrame handed to the call was changed in place: {o['mut']}")
     if o.get("text"):
-        S("numeric-field-is-text", f"numeric field(s) came back as text: {o['text']}")
+        C("numeric-field-is-text", f"numeric field(s) came back as text: {o['text']}")
 
 
 def _judge_export(tag, case, ex, resp, out, dev):
@@ -2043,7 +2105,7 @@ def _judge_export(tag, case, ex, resp, out, dev):
     tname, sname, onames, spec = DOC_NAMES[ver]
     S = lambda clause, detail: out.append(dict(kind="spec", clause=clause, detail=f"[{tag}] {detail}"))
     C = lambda clause, detail: out.append(dict(kind="corr", clause=clause, detail=f"[{tag}] {detail}"))
-    _common(tag, ex, S)
+    _common(tag, ex, C)
     missing = [c for c in ["rlnCoordinateX", "rlnCoordinateY", "rlnCoordinateZ", "rlnAngleRot", "rlnAngleTilt", "rlnAnglePsi", tname, sname, "rlnClassNumber", "rlnRandomSubset"] + onames
                if c not in ex["cols"]]
     if missing:
@@ -2071,16 +2133,20 @@ def _judge_export(tag, case, ex, resp, out, dev):
         r = ex["rows"][i]
         for k, ax in enumerate("XYZ"):
             want = p[k] + p[3 + k]
-            if not _close(r["coord"][k], want, ptol):
+            if not _near(b2f(r["coord"][k]), want, ptol):
                 S("export-coordinate", f"particle {i}: rlnCoordinate{ax}={b2f(r['coord'][k])!r}, complete position {p[k]!r}+{p[3+k]!r}={want!r}"); break
         if any(b2f(o) != 0.0 for o in r["origin"]):
             S("export-origin-zero", f"particle {i}: origin {[b2f(o) for o in r['origin']]}")
         a = [b2f(b) for b in r["ang"]]
         E, Pm = mat_relion(*a), mat_particle(p[6], p[7], p[8])
         d = max(_dev(E @ Pm, I3), _dev(Pm @ E, I3))
-        dev["export_inverse_" + ("mem" if mem else "file")] = max(dev.get("export_inverse_" + ("mem" if mem else "file"), 0.0), d)
-        if not d <= rtol:
-            S("export-rotation-inverse", f"particle {i}: (phi,theta,psi)={p[6:9]} exported (rot,tilt,psi)={a}: |ZYZ(out)*zxz(in)-1|={d:.3g} > {rtol}")
+        ga = _gimbal_allow(Pm)             # 0 outside scipy's gimbal zone
+        if ga:
+            dev["gimbal_zone_particles"] = dev.get("gimbal_zone_particles", 0.0) + 1.0
+        else:
+            dev["export_inverse_" + ("mem" if mem else "file")] = max(dev.get("export_inverse_" + ("mem" if mem else "file"), 0.0), d)
+        if not d <= rtol + ga:
+            S("export-rotation-inverse", f"particle {i}: (phi,theta,psi)={p[6:9]} exported (rot,tilt,psi)={a}: |ZYZ(out)*zxz(in)-1|={d:.3g} > {rtol + ga:.3g}")
         if _name_number(r["tomo"], case["tomo_fmt"], ver, "tomo") != tomo:
             S("export-tomo-number", f"particle {i}: tomogram {tomo} exported as {r['tomo']!r} (format {case['tomo_fmt']!r})")
         if _name_number(r["sub"], case["sub_fmt"], ver, "sub") != sub:
@@ -2105,8 +2171,9 @@ def _judge_export(tag, case, ex, resp, out, dev):
         d2 = _dev(_m(m["rel"]), E)            # the model's own exported rotation (own extractor) against the implementation's
         d5 = _dev(_m(m["rel"]), _m(m["expect"]))  # the model against its theorem (export_is_transpose)
         dev["model_vs_numpy"] = max(dev.get("model_vs_numpy", 0.0), d1)
-        dev["model_rotation_vs_impl"] = max(dev.get("model_rotation_vs_impl", 0.0), d2)
-        dev["scipy_post"] = max(dev.get("scipy_post", 0.0), d3)
+        if not ga:
+            dev["model_rotation_vs_impl"] = max(dev.get("model_rotation_vs_impl", 0.0), d2)
+            dev["scipy_post"] = max(dev.get("scipy_post", 0.0), d3)
         dev["own_extractor_post"] = max(dev.get("own_extractor_post", 0.0), d4)
         if d1 > TOL_MODEL:
             C("export-matrix-vs-model", f"particle {i}: model/harness matrices of the input angles differ by {d1:.3g}")
@@ -2114,9 +2181,9 @@ def _judge_export(tag, case, ex, resp, out, dev):
             C("own-extractor-postcondition", f"particle {i}: the driver's extractor does not reproduce the matrix it was given (|diff|={d4:.3g})")
         elif d5 > TOL_POST:
             C("model-vs-theorem", f"particle {i}: model output is not the transpose although the extractor met its post-condition (|diff|={d5:.3g})")
-        if d3 > (TOL_POST if mem else TOL_FILE):
+        if d3 > (TOL_POST if mem else TOL_FILE) + ga:
             C("scipy-postcondition", f"particle {i}: as_euler answer does not reproduce the matrix handed to scipy (|diff|={d3:.3g})")
-        if d2 > max(rtol, TOL_POST):
+        if d2 > max(rtol, TOL_POST) + ga:
             C("export-rotation-vs-model", f"particle {i}: the model exports a different rotation than the implementation (|diff|={d2:.3g})")
         if m["tomo_name"] != r["tomo"] or m["sub_name"] != r["sub"]:
             C("export-names-vs-model", f"particle {i}: impl ({r['tomo']!r},{r['sub']!r}) model ({m['tomo_name']!r},{m['sub_name']!r})")
@@ -2128,7 +2195,7 @@ def _judge_import(tag, case, im, resp, truth, out, dev):
     """truth: dict(pos=[[3]], xyz=[[3]]|None, shift=[[3]]|None, rot=[3x3], relin=[3x3]|None, tomo, geom3, cls, halfsets|None, ptol, rtol, version|None)"""
     S = lambda clause, detail: out.append(dict(kind="spec", clause=clause, detail=f"[{tag}] {detail}"))
     C = lambda clause, detail: out.append(dict(kind="corr", clause=clause, detail=f"[{tag}] {detail}"))
-    _common(tag, im, S)
+    _common(tag, im, C)
     n = len(truth["pos"])
     rows = im["rows"]
     if len(rows) != n:
@@ -2149,32 +2216,37 @@ def _judge_import(tag, case, im, resp, truth, out, dev):
         r = rows[i]
         xyz, sh, a = [b2f(b) for b in r["xyz"]], [b2f(b) for b in r["shift"]], [b2f(b) for b in r["ang"]]
         pos = [xyz[k] + sh[k] for k in range(3)]
-        if any(not (abs(pos[k] - truth["pos"][i][k]) <= ptol) for k in range(3)):
+        if any(not _near(pos[k], truth["pos"][i][k], ptol) for k in range(3)):
             S("import-position", f"particle {i}: position after import {pos}, expected {truth['pos'][i]}")
         if truth["xyz"] is not None:
-            if any(not (abs(xyz[k] - truth["xyz"][i][k]) <= ptol) for k in range(3)):
+            if any(not _near(xyz[k], truth["xyz"][i][k], ptol) for k in range(3)):
                 S("import-xyz", f"particle {i}: x,y,z {xyz} != rlnCoordinate {truth['xyz'][i]}")
-            if any(not (abs(sh[k] - truth["shift"][i][k]) <= ptol) for k in range(3)):
+            if any(not _near(sh[k], truth["shift"][i][k], ptol) for k in range(3)):
                 S("import-shift", f"particle {i}: shift {sh}, expected -origin{'/pixel' if case['ver'] >= 31 else ''} = {truth['shift'][i]}")
         Pm = mat_particle(*a)
         if truth["relin"] is not None:
             E = truth["relin"][i]
             d = max(_dev(Pm @ E, I3), _dev(E @ Pm, I3))
             key = "import_inverse"
+            ga = _gimbal_allow(E)                       # one as_euler call, on RELION's matrix
         else:
             d = _dev(Pm, truth["rot"][i])
             key = "roundtrip_rotation_" + ("mem" if rtol == TOL_MEM else "file")
-        dev[key] = max(dev.get(key, 0.0), d)
-        if not d <= rtol:
+            ga = _gimbal_allow(truth["rot"][i], 2)      # export and import: two as_euler calls, both inside the zone
+        if ga:
+            dev["gimbal_zone_particles"] = dev.get("gimbal_zone_particles", 0.0) + 1.0
+        else:
+            dev[key] = max(dev.get(key, 0.0), d)
+        if not d <= rtol + ga:
             S("import-rotation-inverse" if truth["relin"] is not None else "roundtrip-orientation",
-              f"particle {i}: imported (phi,theta,psi)={a}: deviation {d:.3g} > {rtol}")
-        if r["tomo"] != truth["tomo"][i]:
+              f"particle {i}: imported (phi,theta,psi)={a}: deviation {d:.3g} > {rtol + ga:.3g}")
+        if _idv(r["tomo"]) != truth["tomo"][i]:
             S("import-tomo-number", f"particle {i}: tomo_id {r['tomo']} expected {truth['tomo'][i]}")
-        if r["geom3"] != truth["geom3"][i]:
+        if _idv(r["geom3"]) != truth["geom3"][i]:
             S("import-subtomo-number-geom3", f"particle {i}: geom3 {r['geom3']} expected subtomogram number {truth['geom3'][i]}")
-        if r["cls"] != truth["cls"][i]:
+        if _idv(r["cls"]) != truth["cls"][i]:
             S("import-class", f"particle {i}: class {r['cls']} expected {truth['cls'][i]}")
-        if truth["halfsets"] is not None and isinstance(r["sub"], int) and _halfset(r["sub"]) != truth["halfsets"][i]:
+        if truth["halfsets"] is not None and isinstance(_idv(r["sub"]), int) and _halfset(_idv(r["sub"])) != truth["halfsets"][i]:
             S("halfset-parity-import", f"particle {i}: rlnRandomSubset {truth['halfsets'][i]} but subtomo_id {r['sub']} after import (geom3 {r['geom3']})")
         if mrows is None:
             continue
@@ -2188,16 +2260,18 @@ def _judge_import(tag, case, im, resp, truth, out, dev):
             continue
         d2, d3, d4 = _dev(_m(m["rot"]), Pm), _dev(_m(m["post"]), _m(m["fed"])), _dev(_m(m["own_post"]), _m(m["fed"]))
         d5 = _dev(_m(m["rot"]), _m(m["expect"]))
-        dev["model_rotation_vs_impl"] = max(dev.get("model_rotation_vs_impl", 0.0), d2)
-        dev["scipy_post"] = max(dev.get("scipy_post", 0.0), d3)
+        gm = _gimbal_allow(_m(m["fed"]))      # the matrix THIS import handed to as_euler
+        if not gm:
+            dev["model_rotation_vs_impl"] = max(dev.get("model_rotation_vs_impl", 0.0), d2)
+            dev["scipy_post"] = max(dev.get("scipy_post", 0.0), d3)
         dev["own_extractor_post"] = max(dev.get("own_extractor_post", 0.0), d4)
         if d4 > TOL_POST:
             C("own-extractor-postcondition", f"particle {i}: the driver's extractor does not reproduce the matrix it was given (|diff|={d4:.3g})")
         elif d5 > TOL_POST:
             C("model-vs-theorem", f"particle {i}: model output is not the transpose although the extractor met its post-condition (|diff|={d5:.3g})")
-        if d3 > TOL_POST:
+        if d3 > TOL_POST + gm:
             C("scipy-postcondition", f"particle {i}: as_euler answer does not reproduce the matrix handed to scipy (|diff|={d3:.3g})")
-        if d2 > max(rtol, TOL_POST) and truth["relin"] is not None:
+        if d2 > max(rtol, TOL_POST) + gm and truth["relin"] is not None:
             C("import-rotation-vs-model", f"particle {i}: the model imports a different rotation than the implementation (|diff|={d2:.3g})")
     if mrows is not None:
         if resp["tomo"] != [r["tomo"] for r in rows]:
@@ -2214,7 +2288,8 @@ def _judge_original_entries(tag, case, ex, truth, out, dev):
     """import -> the user drops / reorders particles -> create_relion_df(use_original_entries=True[, keep_all_entries=True]): output row i is the particle
     perm[i] of the RELION input; everything is judged against the case's own input rows (independent of the model and of the imported table)"""
     S = lambda clause, detail: out.append(dict(kind="spec", clause=clause, detail=f"[{tag}] {detail}"))
-    _common(tag, ex, S)
+    C = lambda clause, detail: out.append(dict(kind="corr", clause=clause, detail=f"[{tag}] {detail}"))
+    _common(tag, ex, C)
     ver = case["ver"]
     u = case["uoe"]
     perm, keep = list(u["perm"]), bool(u.get("keep_all"))
@@ -2237,15 +2312,17 @@ def _judge_original_entries(tag, case, ex, truth, out, dev):
             S("export-halfset", f"row {i} (particle {j}): half-set {truth['halfsets'][j]} exported as {r['halfset']}")
         a = [b2f(b) for b in r["ang"]]
         d = _dev(mat_relion(*a), truth["relin"][j])
-        dev["original_entries_rotation"] = max(dev.get("original_entries_rotation", 0.0), d)
-        if not d <= 1e-8:
+        ga = _gimbal_allow(truth["relin"][j], 2)     # import then export: two as_euler calls
+        if not ga:
+            dev["original_entries_rotation"] = max(dev.get("original_entries_rotation", 0.0), d)
+        if not d <= 1e-8 + ga:
             S("export-rotation-inverse", f"row {i} (particle {j}): exported (rot,tilt,psi)={a} is not the rotation the particle was imported with (|diff|={d:.3g})")
         if any(b2f(o) != 0.0 for o in r["origin"]):
             S("export-origin-zero", f"row {i} (particle {j}): origin {[b2f(o) for o in r['origin']]}")
         zero_origin = all(v == 0.0 for v in truth["origin"][j])
         if not keep or zero_origin:   # keep_all_entries documents "coordinates as loaded": the position is only claimed where that IS the complete position
             c = [b2f(b) for b in r["coord"]]
-            if any(not abs(c[k] - truth["pos"][j][k]) <= 1e-9 for k in range(3)):
+            if any(not _near(c[k], truth["pos"][j][k], 1e-9) for k in range(3)):
                 S("export-coordinate", f"row {i} (particle {j}): rlnCoordinate {c}, complete position x+shift = coordinate - origin{'/pixel' if ver >= 31 else ''} = {truth['pos'][j]}")
 
 
@@ -2255,7 +2332,8 @@ def _errors(case, obs, tags, out):
         if o is None or _ok(o):
             continue
         if o.get("where"):
-            out.append(dict(kind="spec", clause="raises:" + tag, detail=f"[{tag}] {o['error']} @{o['where']}"))
+            # B0 (write_optics left at its default for 3.0) is a refusal the statement does not name: another exception type there is `corr`
+            out.append(dict(kind=("corr" if tag == "B0" else "spec"), clause="raises:" + tag, detail=f"[{tag}] {o['error']} @{o['where']}"))
         else:  # G4: no frame of the traceback lies inside /cryocat/
             out.append(dict(kind="corr", clause="harness-or-library-raised", detail=f"[{tag}] {o['error']} (no cryocat frame in the traceback)"))
 
@@ -2333,7 +2411,7 @@ def stats(case, obs, resps):
     rows = case["parts"] if case["kind"] == "cc" else case["rows"]
     n = len(rows)
     d = {"kind": case["kind"], "version": case["ver"] / 10, "N": "1" if n == 1 else ("2-25" if n <= 25 else ("26-80" if n <= 80 else "81-300")),
-         "angles": case.get("angles", "?"), "optics": str(case.get("optics")),
+         "angles": case.get("angles", "?"), "optics": str(case.get("optics")), "keywordless_imports_through": case.get("loader", "ctor"),
          "paths_ok": [t for t in ("A", "B", "B0", "C", "D", "E", "G", "M", "M2", "U", "F", "H", "F2") if _ok(obs.get(t))] if "error" not in obs else [],
          "gimbal_particles": "yes" if any((b2f(r[7]) % 180.0) == 0.0 for r in rows) else "no"}
     if case["kind"] == "cc":
@@ -2369,6 +2447,9 @@ def stats(case, obs, resps):
         if id(case) not in STATS:
             judge(case, obs, resps)
         for k, v in STATS.get(id(case), {}).items():
+            if k == "gimbal_zone_particles":     # particles inside scipy's gimbal zone: judged with the conditioned allowance, not part of the maxdev histograms
+                d["inside_scipy_gimbal_zone"] = "yes"
+                continue
             d["maxdev:" + k] = "<=1e-12" if v <= 1e-12 else ("<=1e-9" if v <= 1e-9 else ("<=1e-6" if v <= 1e-6 else ("<=2e-5" if v <= 2e-5 else ">2e-5")))
     except Exception:
         pass
@@ -2401,12 +2482,12 @@ def probes(rng):
             worst["ZYZ=Rz(a)Ry(b)Rz(c)"] = max(worst["ZYZ=Rz(a)Ry(b)Rz(c)"], _dev(rot.from_euler("ZYZ", a, degrees=True).as_matrix(), mat_relion(*a)))
             r = rot.from_euler("ZXZ", a, degrees=True)
             e = r.as_euler("ZYZ", degrees=True)
-            worst["as_euler(ZYZ) post-condition"] = max(worst["as_euler(ZYZ) post-condition"], _dev(mat_relion(*e), r.as_matrix()))
+            worst["as_euler(ZYZ) post-condition"] = max(worst["as_euler(ZYZ) post-condition"], max(0.0, _dev(mat_relion(*e), r.as_matrix()) - _gimbal_allow(r.as_matrix())))
             r = rot.from_euler("ZYZ", a, degrees=True)
             e = r.as_euler("zxz", degrees=True)
-            worst["as_euler(zxz) post-condition"] = max(worst["as_euler(zxz) post-condition"], _dev(mat_particle(*e), r.as_matrix()))
+            worst["as_euler(zxz) post-condition"] = max(worst["as_euler(zxz) post-condition"], max(0.0, _dev(mat_particle(*e), r.as_matrix()) - _gimbal_allow(r.as_matrix())))
     for k, v in worst.items():
-        out.append(dict(name="scipy " + k, ok=v <= 1e-9, detail=f"max deviation {v:.3g} over 300 orientations incl. gimbal lock"))
+        out.append(dict(name="scipy " + k, ok=v <= 1e-9, detail=f"max deviation {v:.3g} over 300 orientations incl. gimbal lock (post-conditions: beyond the 3 sin(theta) allowance inside as_euler's gimbal zone)"))
     return out
 
 
